@@ -833,7 +833,11 @@ def expected_calls(unit, project):
                     if decl is not None:
                         r = resolve(decl[1])
                         if r is not None: exp = [r[0], r[1]]
-                calls.append(["call", e.name, str(nt.line), str(nt.col), exp[0], exp[1]])
+                elif e.target.k == "field" and e.target.e.k == "this" and e.target.name in fields:
+                    # this.repo.save(): the receiver is the field, whatever a local of that name is
+                    r = resolve(fields[e.target.name])
+                    if r is not None: exp = [r[0], r[1], "1"]
+                calls.append(["call", e.name, str(nt.line), str(nt.col), exp[0], exp[1]] + exp[2:])
                 for a in e.args: expr(a)
             elif k == "new":
                 calls.append(["new", e.type.base.split(".")[0], "0", "0", "", ""])
